@@ -120,6 +120,8 @@ def check_bump(c, nb, nf, fails, stats, sfx=""):
             fail(fails, f"C18:bump-lowers@{K_BUMP}{sfx}", f"month {m}: biofuel {b!r}->{nb[m]!r}, feed {f!r}->{nf[m]!r}",
                  hexcase(c), {"b": hx(nb), "f": hx(nf)})
             break
+        # the ceilings are required for ARBITRARY inputs (quantities already above their demand, negative increase,
+        # negative availability): out-of-domain months are audited like all others, only counted separately
         dom = in_domain(b, f, inc, mb, mf, tol(scale) if sfx else 0.0)
         over_b = nb[m] > max(b, mb) + tol(max(b, mb))
         over_f = nf[m] > max(f, mf) + tol(max(f, mf))
@@ -130,16 +132,21 @@ def check_bump(c, nb, nf, fails, stats, sfx=""):
                 if stats.get("out_of_domain_example") is None:
                     stats["out_of_domain_example"] = {"b": b, "f": f, "inc": inc, "maxb": mb, "maxf": mf, "avail": av,
                                                       "new_b": nb[m], "new_f": nf[m]}
-            continue
         n += 2
         if over_b:
             fail(fails, f"C18:bump-biofuel-above-demand@{K_BUMP}{sfx}",
-                 f"month {m}: biofuel raised to {nb[m]!r} above its demand {mb!r} (was {b!r})", hexcase(c),
+                 f"month {m}: biofuel raised to {nb[m]!r} above its demand {mb!r} (was {b!r}; feed {f!r}, feed demand {mf!r}, "
+                 f"increase {inc!r}, available {av!r})", hexcase(c),
                  {"b": hx(nb), "f": hx(nf)})
             break
         if over_f:
             fail(fails, f"C18:bump-feed-above-demand@{K_BUMP}{sfx}",
                  f"month {m}: feed raised to {nf[m]!r} above its demand {mf!r} (was {f!r}; excess {nf[m] - mf!r})",
+                 hexcase(c), {"b": hx(nb), "f": hx(nf)})
+            break
+        if nb[m] > b + max(inc, 0.0) + tol(b + max(inc, 0.0)) or nf[m] > f + max(inc, 0.0) + tol(f + max(inc, 0.0)):
+            fail(fails, f"C18:bump-beyond-requested-increase@{K_BUMP}{sfx}",
+                 f"month {m}: biofuel {b!r}->{nb[m]!r} or feed {f!r}->{nf[m]!r} rose by more than the requested increase {inc!r}",
                  hexcase(c), {"b": hx(nb), "f": hx(nf)})
             break
     return n
